@@ -607,6 +607,47 @@ var c14Scaled = []struct {
 		}
 		return b
 	}},
+	{"a map of k entries followed by k empty maps", func(k int) []byte {
+		b := []byte{0x57, 'H'}
+		for i := 0; i < k; i++ {
+			b = append(append(b, encInt(int32(i))...), 0x90)
+		}
+		b = append(b, 'Z')
+		for i := 0; i < k; i++ {
+			b = append(b, 'H', 'Z')
+		}
+		return append(b, 'Z')
+	}},
+	{"a map of k entries followed by k/2 maps of one entry as values of unknown fields", func(k int) []byte {
+		b := []byte{0x57, 'H'}
+		for i := 0; i < k; i++ {
+			b = append(append(b, encInt(int32(i))...), 0x90)
+		}
+		b = append(b, 'Z')
+		b = append(b, "C\x05Inner\x91\x03zzz"...)
+		for i := 0; i < k/2; i++ {
+			b = append(b, 0x60, 'H', 0x90, 0x90, 'Z')
+		}
+		return append(b, 'Z')
+	}},
+	{"a class definition of 8k one-letter field names and one instance of nulls", func(k int) []byte {
+		b := append([]byte{'C', 0x04, 'N', 'o', 'd', 'e'}, encInt(int32(8*k))...)
+		for i := 0; i < 8*k; i++ {
+			b = append(b, 0x01, byte('a'+i%26))
+		}
+		b = append(b, 0x60)
+		for i := 0; i < 8*k; i++ {
+			b = append(b, 'N')
+		}
+		return b
+	}},
+	{"a class definition of 8k field names for a class the type map lacks, inside a list", func(k int) []byte {
+		b := append([]byte{0x57, 'C', 0x04, 'N', 'o', 'n', 'e'}, encInt(int32(8*k))...)
+		for i := 0; i < 8*k; i++ {
+			b = append(b, 0x01, byte('a'+i%26))
+		}
+		return append(b, 0x90, 'Z')
+	}},
 	{"one unknown field name of k characters and k instances", func(k int) []byte {
 		b := append([]byte{'C', 0x05, 'I', 'n', 'n', 'e', 'r', 0x91, 'S'}, byte(k>>8), byte(k))
 		for i := 0; i < k; i++ {
